@@ -3,7 +3,6 @@
 package secp256k1
 
 func init() {
-	VerifScalarBaseMultVartime = func(v *Point, s *Scalar) *Point { return v.scalarBaseMultVartime(s) }
 	VerifHugeTableEntry = func(i, j int) (*VerifFE, *VerifFE) {
 		e := &generatorHugeAffineTable[i][j]
 		return &e.x, &e.y
@@ -12,5 +11,4 @@ func init() {
 		e := &generatorOddAffineTable[i][j]
 		return &e.x, &e.y
 	}
-	VerifTableBytesNil = func() bool { return generatorHugeAffineTableBytes == nil }
 }
